@@ -220,6 +220,9 @@ impl Mp4Box for AvcCBox {
 impl<R: Read + Seek> ReadBox<&mut R> for AvcCBox {
     fn read_box(reader: &mut R, size: u64) -> Result<Self> {
         let start = box_start(reader)?;
+        // Bytes of the box left after its 6 fixed bytes: the parameter sets must fit
+        // into them, whatever lengths they declare.
+        let mut remaining = size.saturating_sub(HEADER_SIZE + 6);
 
         let configuration_version = reader.read_u8()?;
         let avc_profile_indication = reader.read_u8()?;
@@ -229,13 +232,19 @@ impl<R: Read + Seek> ReadBox<&mut R> for AvcCBox {
         let num_of_spss = reader.read_u8()? & 0x1F;
         let mut sequence_parameter_sets = Vec::with_capacity(num_of_spss as usize);
         for _ in 0..num_of_spss {
-            let nal_unit = NalUnit::read(reader)?;
+            let nal_unit = NalUnit::read(reader, &mut remaining)?;
             sequence_parameter_sets.push(nal_unit);
         }
+        if remaining < 1 {
+            return Err(Error::InvalidData(
+                "avcC parameter sets extend beyond the box",
+            ));
+        }
+        remaining -= 1;
         let num_of_ppss = reader.read_u8()?;
         let mut picture_parameter_sets = Vec::with_capacity(num_of_ppss as usize);
         for _ in 0..num_of_ppss {
-            let nal_unit = NalUnit::read(reader)?;
+            let nal_unit = NalUnit::read(reader, &mut remaining)?;
             picture_parameter_sets.push(nal_unit);
         }
 
@@ -293,8 +302,19 @@ impl NalUnit {
         2 + self.bytes.len()
     }
 
-    fn read<R: Read + Seek>(reader: &mut R) -> Result<Self> {
+    fn read<R: Read + Seek>(reader: &mut R, remaining: &mut u64) -> Result<Self> {
+        if *remaining < 2 {
+            return Err(Error::InvalidData(
+                "avcC parameter sets extend beyond the box",
+            ));
+        }
         let length = reader.read_u16::<BigEndian>()? as usize;
+        if length as u64 > *remaining - 2 {
+            return Err(Error::InvalidData(
+                "avcC parameter sets extend beyond the box",
+            ));
+        }
+        *remaining -= 2 + length as u64;
         let mut bytes = vec![0u8; length];
         reader.read_exact(&mut bytes)?;
         Ok(NalUnit { bytes })
